@@ -254,6 +254,14 @@ def doReload {κ : Type} [DecidableEq κ] (H : Pt → κ) (s : State κ) : Optio
   | some d =>
     some { db := d, pend := d.foldl (fun pend po => addPending H pend po.1) [], file := s.file }
 
+/-- `database.update_from_hdf(file)` on the *current* database (not an operation of the state
+    machine of the theorems; covered by the correspondence check and the oracle only): every file
+    entry goes through `store`, in index order. -/
+def doUpdate {κ : Type} [DecidableEq κ] (H : Pt → κ) (s : State κ) : Option (State κ) :=
+  match readFile s.file with
+  | none => none
+  | some d => some (d.foldl (fun st po => doStore H st po.1 po.2) s)
+
 def step {κ : Type} [DecidableEq κ] (H : Pt → κ) (s : State κ) : Op → Option (State κ)
   | .store p o => some (doStore H s p o)
   | .exportFile a => doExport s a
